@@ -18,7 +18,7 @@ import (
 // clock against handler sleeps and scheduler steps.
 
 func init() {
-	register(&Prop{ID: "C15", Gen: genC15, Check: checkC15, HangIsViolation: false})
+	register(&Prop{ID: "C15", Gen: genC15, Check: checkC15, HangIsViolation: true})
 }
 
 func genC15(t *core.Tape, tier string) *Scenario {
@@ -76,7 +76,31 @@ func genC15(t *core.Tape, tier string) *Scenario {
 				}
 			}
 			at := t.Choose(max+1, "cancel.at")
-			*prog = append((*prog)[:at:at], append([]COp{{Op: "cancel"}}, (*prog)[at:]...)...)
+			rest := (*prog)[at:]
+			if p.Kind == KBidi && !p.Split && t.Bool(1, 2, "cancel.ends.request.side") {
+				// the program finishes by cancelling: at most one more Send, no
+				// CloseRequest, then the response side (which must not block)
+				hasSend := false
+				for _, op := range (*prog)[:at] {
+					hasSend = hasSend || op.Op == "send"
+				}
+				var kept []COp
+				sent := false
+				for _, op := range rest {
+					switch {
+					case op.Op == "send" && !sent:
+						kept, sent = append(kept, op), true
+					case op.Op == "send" || op.Op == "closereq":
+					default:
+						kept = append(kept, op)
+					}
+				}
+				if hasSend || sent {
+					rest = kept
+					sc.Notes["cancel_without_closerequest"]++
+				}
+			}
+			*prog = append((*prog)[:at:at], append([]COp{{Op: "cancel"}}, rest...)...)
 		}
 	case 2: // deadline on the fake clock
 		sc.Notes["mode_deadline"]++
